@@ -3,7 +3,15 @@
    header was accepted gets exactly one reply (never silence), malformed parameters get a Reject/Abort,
    unknown or unsupported services a Reject(unrecognized-service).  The transport half (one transaction,
    no residue) is C04/C12's model; health under garbage is checked on the implementation (direct check). *)
-From Bac Require Import Base Asap AsapFacts.
+From Bac Require Import Base.
+From Bac Require Import Tag.
+From Bac Require Import Schema.
+From Bac Require Import Codec.
+From Bac Require Import Asap.
+From Bac Require Import AsapFacts.
+From Bac Require Import AsapCodec.
+From Bac Require Import AsapCodecFacts.
+From BacGen Require Import Schemas.
 Open Scope N_scope.
 
 (* exactly one reply whenever the service itself answers or raises (XSilent = a service helper that
@@ -38,6 +46,33 @@ Theorem C10_service_exception_is_error :
   asap_confirmed true true DOk XExn = [mkReply ERROR errDevice errOperationalProblem].
 Proof. exact exec_exception_mapped. Qed.
 Print Assumptions C10_service_exception_is_error.
+
+(* from the octets: for EVERY octet string in the parameter area of a request whose service choice is
+   in the (translated) registry, the codec model either accepts it or refuses it with some error class,
+   and in the second case the client gets a Reject or an Abort — never silence — whatever the service
+   implementation would have done *)
+Theorem C10_any_parameter_octets_one_reply : forall svc params have_helper x,
+  x <> XSilent -> exists r, asap_octets svc params have_helper x = [r].
+Proof. exact octets_one_reply. Qed.
+Print Assumptions C10_any_parameter_octets_one_reply.
+
+Theorem C10_refused_parameters_rejected : forall svc params have_helper x t e,
+  assocN svc confirmed_request_types = Some t -> decode_pdu t params = Err e ->
+  exists r, asap_octets svc params have_helper x = [r] /\ (ptype r = REJECT \/ ptype r = ABORT).
+Proof. exact octets_refused_params. Qed.
+Print Assumptions C10_refused_parameters_rejected.
+
+Theorem C10_unknown_service_octets : forall svc params have_helper x,
+  assocN svc confirmed_request_types = None ->
+  asap_octets svc params have_helper x = [mkReply REJECT unrecognizedService 0].
+Proof. exact octets_unknown_service. Qed.
+Print Assumptions C10_unknown_service_octets.
+
+(* non-vacuity: a truncated ReadProperty (service 12, object identifier only) is refused by the codec with
+   MissingRequired and answered Reject(missing-required-parameter = 5) *)
+Example C10_truncated_readproperty :
+  asap_octets 12 [12; 0; 128; 0; 1] true XSilent = [mkReply REJECT 5 0].
+Proof. vm_compute. reflexivity. Qed.
 
 Example C10_nonvacuous :
   asap_confirmed true true (DExn AttrErr) XSilent = [mkReply REJECT rejectOther 0] /\
